@@ -202,6 +202,26 @@ def run(ctx):
                 if info['converged'] and tr > 10 * 1e-6:
                     viol(f'C04:info:converged:row-scaled:{prec}', f'converged reported with true residual {tr:.2e} > 10 tol (tol = 1e-6)', inp, tr)
                 ctx.count(('row-scaled', n, top, bname, prec), True)
+    # LU preconditioner under every pivot order: systems A = P^T L U (dyadic, |multipliers| <= 3/4) force each of the n! interchange
+    # sequences, the non-involutive ones (3-cycles, 4-cycles) included; the preconditioned run must solve the ORIGINAL system and agree
+    # with the unpreconditioned solution
+    import itertools
+    from .c07 import forced as _forced
+    for n in (3, 4) if ctx.quick() else (3, 4, 5):
+        perms = list(itertools.permutations(range(n)))
+        if len(perms) > 24: perms = [perms[i] for i in sorted(rng.sample(range(len(perms)), 30))]
+        for perm in perms:
+            A = _forced(rng, n, n, perm); An = qx.to_np(A)
+            bq = qx.rand_int(rng, n, 1, -3, 3); bq[0][0] = Q(1, 2, 0, 0); bn = qx.to_np(bq)
+            inp = {'class': 'forced-pivot-order', 'n': n, 'pivot rows': list(perm), 'preconditioner': 'left_lu', 'A': [[[str(c) for c in a.t()] for a in r] for r in A], 'b': [[str(c) for c in q[0].t()] for q in bq]}
+            try: x, info = solve(An, bn, tol=1e-10, preconditioner='left_lu'); x0, info0 = solve(An, bn, tol=1e-10)
+            except Exception as e: viol('C04:raises:forced-pivot-order', f'Q-GMRES raised {e!r}', inp); continue
+            if not cm.all_finite(x): viol('C04:nonfinite:forced-pivot-order', 'Q-GMRES with left_lu returned NaN/inf', inp); continue
+            tr = relres(An, x, bn); tr0 = relres(An, x0, bn)
+            if abs(info['residual'] - tr) > 1e-9 * max(1.0, tr) + 1e-13: viol('C04:info:residual:left_lu', 'info.residual is not ||Ax-b||/||b|| of the returned x (left_lu)', inp, info['residual'], tr)
+            if info['converged'] and tr > 1e-7: viol('C04:info:converged:left_lu', f'converged reported with true residual {tr:.2e} (left_lu)', inp, tr)
+            if tr0 <= 1e-8 and tr > 1e-8: viol('C04:solve:left_lu:pivot-order', f'the LU-preconditioned run does not solve the system (true residual {tr:.2e}, pivot rows {list(perm)}) while the unpreconditioned run does ({tr0:.2e})', inp, tr, tr0)
+            ctx.count(('forced-lu', n, perm), list(perm) != list(range(n)))
     # LU preconditioner failing (zero pivot): silent fallback must still solve
     Z = qx.to_np([[Q(0), Q(1)], [Q(1), Q(0)]]) * 1e-20; bz = qx.to_np([[Q(1)], [Q(0, 1)]]) * 1e-20
     try:
